@@ -134,7 +134,7 @@ for _k, _v in TIES.items():
 SHARED = {
     "C01": ["C02"], "C02": ["C01"], "C03": ["C02", "C07"],
     "C04": ["C15", "C05"], "C05": ["C04", "C15"], "C15": ["C04", "C05"],
-    "C08": ["C09", "C12", "C13", "C16"],
+    "C08": ["C09", "C12", "C13", "C16", "C15"],
     "C09": ["C10", "C20"], "C10": ["C09"], "C20": ["C09", "C10"],
     "C11": ["C12"], "C12": ["C11"],
     "C13": ["C14"], "C14": ["C13"],
